@@ -210,6 +210,13 @@ def run_bounded(chk):
                 fails.append((f"batch:{cname}/n={nb}", {"class": cname, "batch_size": nb, "index": badi, "point": pts[badi].tolist(),
                                                         "in_the_batch": bool(got[badi]), "in_a_small_batch": bool(ref[badi]),
                                                         "differing_entries": int(np.sum(got != ref))}))
+    # lattice solids with slanted faces (pyramid, octahedron, wedge) as general Polyhedron, half-integer grid incl. points straight above
+    # vertices and on the vertical planes through edges (the corpus of the deductive clauses' replay)
+    from .c05_winding import replay_winding
+    hit, info_w = replay_winding()({})
+    n_cases += 1
+    if hit:
+        fails.append((f"lattice:{info_w.get('solid', '?')}", info_w))
     for name, info in fails[:5]:
         n_bad += 1
         chk.record(f"bounded:is_inside_3d[{name}]", fkey, "bounded-fail", "exact-membership", detail=str(info)[:500], model={},
@@ -222,7 +229,7 @@ def run_bounded(chk):
         "bound": "8 voxel solids x 3 (quick) / 4 placements x all points of a half-integer grid of the bounding box +-1 that are "
                  "not on the boundary (these share coordinates with vertices); 6 (quick) / 20 convex cores x radii {0, 5%, 50% of size} "
                  "x 300 seeded points, margin 1e-6 size; 3 objects read, then moved / resized / reoriented through their public mutators "
-                 "and re-read against a fresh construction; batches of 1 .. 2049 (quick) / 4099 points on the five classes against batches of 37 and single-point calls",
+                 "and re-read against a fresh construction; 3 lattice solids with slanted faces x 2 placements on a half-integer grid; batches of 1 .. 2049 (quick) / 4099 points on the five classes against batches of 37 and single-point calls",
         "evaluations": n_eval, "distinct_nontrivial": n_cases,
         "rule": "distinct = (solid, placement) or (core, radius); every case has interior and exterior points",
         "samples": [{"solid": "U7", "example_point": [1.0, 0.5, 0.5]}], "failures": len(fails), "exhaustive": False})
